@@ -155,6 +155,29 @@ func histConfig(a vh.Args, i int) histCfg {
 	// Snappy entries with the concurrent and with the on-disk kind (entries applied
 	// in batches), PreVote on and off; with CheckQuorum all four combinations occur
 	// in the first four
+	// topology: a second shard on the same hosts (history 0), five voters (history 3),
+	// a single voter with a non-voting replica (history 4: the ReadIndex shortcut of
+	// a one voter shard, a shorter history)
+	cfg.voters = 3
+	switch {
+	case i == 0:
+		cfg.twoShards = true
+	case i == 3:
+		cfg.voters = 5
+	case i == 4:
+		cfg.voters = 1
+	case i > 4:
+		d := subRand(seed, 4)
+		cfg.voters = []int{3, 3, 3, 1, 5, 5}[d.Intn(6)]
+		cfg.twoShards = d.Chance(1, 3)
+	}
+	if cfg.voters == 1 {
+		cfg.nonVoting, cfg.lateJoin, cfg.membership, cfg.restore = true, false, false, false
+		cfg.slowReplica = 1
+		if a.Tier != "thorough" {
+			cfg.duration = 1500 * time.Millisecond
+		}
+	}
 	// power loss (strict file system): the on-disk history and the one that has no
 	// graceful restart
 	cfg.powerLoss = i%4 == 1 || i%4 == 3
@@ -231,7 +254,7 @@ func classifyDeath(stderr string) (kind string, first string) {
 // gen runs every history in a child process of its own: a panic on a goroutine of
 // the library (which cannot be recovered from) ends that history only.
 func gen(a vh.Args) {
-	n := 4
+	n := 5
 	if a.Tier == "thorough" {
 		n = 40
 	}
@@ -342,7 +365,7 @@ func dims(c histCfg) string {
 		name string
 	}{{c.onDisk, "ondisk"}, {c.notifyCommit, "notifycommit"}, {c.sessions, "sessions"}, {c.lateJoin && c.nonVoting, "latejoin"},
 		{c.membership, "membership"}, {c.snapshotOps, "snapshotops"}, {c.queryLog, "querylog"}, {c.quiesce, "quiesce"}, {c.restore, "restore"},
-		{c.powerLoss, "powerloss"}, {c.entrySnappy, "entrysnappy"}, {c.snapSnappy, "snapsnappy"}, {c.preVote, "prevote"}} {
+		{c.powerLoss, "powerloss"}, {c.voters == 1, "onevoter"}, {c.voters == 5, "fivevoters"}, {c.twoShards, "twoshards"}, {c.entrySnappy, "entrysnappy"}, {c.snapSnappy, "snapsnappy"}, {c.preVote, "prevote"}} {
 		if x.on {
 			d = append(d, x.name)
 		}
